@@ -8,7 +8,7 @@ reported in the evidence under `trusted_base`.
 import re
 
 from mirparse import Unsupported, split_top
-from symex import (I, Bv, Tup, St, En, Ref, RefMut, Opq, UNIT, mk_option, mk_result, vite, int_range,
+from symex import (I, Bv, Tup, St, En, Ref, RefMut, Opq, Sl, UNIT, mk_option, mk_result, vite, int_range,
                    is_int_ty, PRIMS)
 from terms import (is_c, t_add, t_sub, t_mul, t_neg, t_eq, t_lt, t_le, t_not, t_and, t_or, t_ite)
 
@@ -20,7 +20,7 @@ TABLE = []
 
 
 def model(pattern, label):
-    rx = re.compile("^" + pattern + "$")
+    rx = re.compile("^(?:" + pattern + ")$")
 
     def deco(f):
         TABLE.append((rx, label, f))
@@ -384,7 +384,8 @@ def m_ok_or_else(ex, m, args):
     return En("Result", t_ite(o.is_("Some"), 0, 1), pl)
 
 
-@model(r"CoreError::name|<CoreError as Into<u32>>::into|<\w+ as ToString>::to_string|"
+@model(r"(\w+::)*(CoreError|ErrorCode)::name|<(\w+::)*(CoreError|ErrorCode) as Into<u32>>::into|<u32 as From<(\w+::)*(CoreError|ErrorCode)>>::from|<\w+ as ToString>::to_string|"
+       r"<(\w+::)*ErrorCode as Into<anchor_lang::error::Error>>::into|"
        r"<anchor_lang::error::Error as From<.*>>::from|anchor_lang::error::Error::with_\w+(::<.*>)?",
        "anchor: construction of anchor_lang::error::Error values (error name / code / message / compared values) is total and opaque; error payloads are never inspected")
 def m_anchor_error(ex, m, args):
@@ -495,6 +496,71 @@ def m_opt_unwrap_or(ex, m, args):
     return vite(o.is_("Some"), p, args[1])
 
 
+# ---- slice::Iter / Take (loops are unrolled by the executor) ---------------------------------------------------------
+@model(rf"core::slice::<impl \[({ANYINT})\]>::iter", "core: slice::iter = iterator over the elements in order")
+def m_slice_iter(ex, m, args):
+    arr = deref(ex, args[0])
+    if isinstance(arr, Tup):
+        arr = Sl(arr.fs, len(arr.fs))
+    if not isinstance(arr, Sl) or not is_c(arr.len):
+        raise Unsupported("slice::iter on a slice of symbolic length")
+    return St("SliceIter", [Tup(arr.fs[:arr.len]), I(0, "usize")])
+
+
+@model(r"<(?:\w+::)*Iter<'_, .*> as Iterator>::take", "core: Iterator::take(n) = at most n further items")
+def m_iter_take(ex, m, args):
+    return St("Take", [args[0], as_int(ex, args[1], "usize")])
+
+
+@model(r"<(?:\w+::)*Take<(?:\w+::)*Iter<'_, .*>> as IntoIterator>::into_iter", "core: IntoIterator for an iterator is the identity")
+def m_take_into_iter(ex, m, args):
+    return args[0]
+
+
+@model(r"<(?:\w+::)*Take<(?:\w+::)*Iter<'_, .*>> as Iterator>::next",
+       "core: Take<slice::Iter>::next = Some(&s[k]) for the k-th call while k < min(n, len), then None (the k-th call is only reached after k items)")
+def m_take_next(ex, m, args):
+    r = args[0]
+    if not isinstance(r, RefMut):
+        raise Unsupported("Take::next on a non-&mut place")
+    tk = r.load(ex)
+    if not isinstance(tk, St) or tk.name != "Take":
+        raise Unsupported(f"Take value expected, got {tk!r}")
+    it, n = tk.fs
+    elems, pos = it.fs
+    k = pos.t
+    if not is_c(k):
+        raise Unsupported("slice iterator position is symbolic")
+    has = t_and(t_lt(0, n.t), k < len(elems.fs))
+    # after a None the iterator stays exhausted whatever the position is (n == 0 or position >= len), so the
+    # position can advance unconditionally
+    has = ex.name_term(has, "take_has", "Bool")
+    r.store(ex, St("Take", [St("SliceIter", [elems, I(k + 1, "usize")]), I(ex.name_term(t_ite(has, t_sub(n.t, 1), n.t), "take_n"), "usize")]))
+    if k < len(elems.fs):
+        return En("Option", t_ite(has, 1, 0), {"Some": (Ref(elems.fs[k]),)})
+    return En("Option", 0, {})
+
+
+@model(rf"core::num::<impl ({INT})>::(saturating_add|saturating_sub|saturating_mul)",
+       "core: {integer}::saturating_add/sub/mul = exact result clamped to the type's range")
+def m_saturating(ex, m, args):
+    ty = m.group(1)
+    a, b = as_int(ex, args[0], ty), as_int(ex, args[1], ty)
+    f = {"saturating_add": t_add, "saturating_sub": t_sub, "saturating_mul": t_mul}[m.group(2)]
+    exact = ex.name_term(f(a.t, b.t), "sat")
+    lo, hi = int_range(ty)
+    return I(ex.name_term(t_ite(t_lt(hi, exact), hi, t_ite(t_lt(exact, lo), lo, exact)), "satv"), ty)
+
+
+@model(r"Result::<.*>::unwrap_or", "core: Result::unwrap_or")
+def m_res_unwrap_or(ex, m, args):
+    r = as_enum(ex, args[0], "Result")
+    p = payload(r, "Ok")
+    if p is None:
+        return args[1]
+    return vite(r.is_("Ok"), p, args[1])
+
+
 # ---- Range<int> iteration (loops are unrolled by the executor) -----------------------------------------------
 @model(rf"<Range<({INT})> as IntoIterator>::into_iter", "core: IntoIterator for Range is the identity")
 def m_range_into_iter(ex, m, args):
@@ -512,8 +578,8 @@ def m_range_next(ex, m, args):
     if not isinstance(rng, St) or len(rng.fs) != 2:
         raise Unsupported(f"Range value expected, got {rng!r}")
     start, end = as_int(ex, rng.fs[0], ty), as_int(ex, rng.fs[1], ty)
-    has = t_lt(start.t, end.t)
-    r.store(ex, St(rng.name, [I(t_ite(has, t_add(start.t, 1), start.t), ty), end]))
+    has = ex.name_term(t_lt(start.t, end.t), "range_has", "Bool")
+    r.store(ex, St(rng.name, [I(ex.name_term(t_ite(has, t_add(start.t, 1), start.t), "range_start"), ty), end]))
     return mk_option(has, start)
 
 
@@ -615,19 +681,43 @@ def m_uint_pow(ex, m, args):
 
 
 @model(rf"core::slice::<impl \[({ANYINT})\]>::binary_search",
-       "core: slice::binary_search on a strictly increasing concrete table = Ok(i) if table[i] == x else Err(#{j : table[j] < x})")
+       "core: slice::binary_search on a strictly increasing slice = Ok(i) if s[i] == x else Err(#{j : s[j] < x}) (strict monotonicity is itself an obligation)")
 def m_binary_search(ex, m, args):
     ty = m.group(1)
     arr = deref(ex, args[0])
     x = as_int(ex, args[1], ty)
-    if not isinstance(arr, Tup):
-        raise Unsupported("binary_search on non-array")
+    if isinstance(arr, Tup):
+        arr = Sl(arr.fs, len(arr.fs))
+    if not isinstance(arr, Sl):
+        raise Unsupported("binary_search on a non-slice")
     vals = [as_int(ex, v, ty).t for v in arr.fs]
-    if not all(is_c(v) for v in vals) or any(vals[i] >= vals[i + 1] for i in range(len(vals) - 1)):
-        raise Unsupported("binary_search table is not concrete and strictly increasing")
-    found = t_or(*[t_eq(x.t, v) for v in vals])
+    n = arr.len
+    inside = [t_lt(k, n) for k in range(len(vals))]
+    unsorted = t_or(*[t_and(t_lt(k + 1, n), t_not(t_lt(vals[k], vals[k + 1]))) for k in range(len(vals) - 1)])
+    ex.panic("unsupported-if-reachable: binary_search on a slice that is not strictly increasing", unsorted)
+    found = t_or(*[t_and(inside[k], t_eq(x.t, vals[k])) for k in range(len(vals))])
     idx = 0
-    for v in vals:
-        idx = t_add(idx, t_ite(t_lt(v, x.t), 1, 0))
+    for k, v in enumerate(vals):
+        idx = t_add(idx, t_ite(t_and(inside[k], t_lt(v, x.t)), 1, 0))
     idx = ex.name_term(idx, "bsidx")
     return En("Result", t_ite(found, 0, 1), {"Ok": (I(idx, "usize"),), "Err": (I(idx, "usize"),)})
+
+
+@model(rf"<\[({ANYINT}); (\d+)\] as Index<Range<usize>>>::index",
+       "core: array[start..end] = the sub-slice; panics if start > end or end > N (only start == 0 is modelled)")
+def m_index_range(ex, m, args):
+    arr = deref(ex, args[0])
+    rng = deref(ex, args[1])
+    if not isinstance(arr, Tup) or not isinstance(rng, St) or len(rng.fs) != 2:
+        raise Unsupported("array range index: unexpected operands")
+    start, end = as_int(ex, rng.fs[0], "usize"), as_int(ex, rng.fs[1], "usize")
+    if not (is_c(start.t) and start.t == 0):
+        raise Unsupported("array range index with a non-zero start")
+    ex.panic("panic: range end index out of range for the array", t_lt(len(arr.fs), end.t))
+    return Ref(Sl(arr.fs, end.t))
+
+
+@model(r"core::fmt::rt::Argument::<'_>::new_\w+::<.*>|(core::fmt::)?Arguments::<'_>::new(_\w+)?(::<.*>)?|(alloc::fmt::)?format|(core::hint::)?must_use::<.*>|<String as Deref>::deref",
+       "std: formatting of a log message (format!, fmt::Arguments) has no effect on the computation and is opaque")
+def m_fmt(ex, m, args):
+    return Opq("formatted text")
